@@ -19,7 +19,7 @@ from xv import monitors
 PROPERTY = 'C17'
 LEVEL = 'exploration'
 RULE = ("directory trees of depth <= 3 built from names {a, b, c, pkg_x, mod_y, _p} where each name becomes a module, a "
-        "regular package, a directory without __init__.py, both a module and a package, or a package with __main__.py; for "
+        "regular package, a directory without __init__.py, both a module and a package, a module beside a plain directory of the same name, or a package with __main__.py; for "
         "every dotted name derivable from the tree (files, directories, intermediate names) plus absent names the "
         "resolution is compared with FileFinder; found paths go through modpath_to_modname, split_modpath and "
         "import_module_from_path.  Non-trivial = the name has at least two parts or names a directory; distinct by "
@@ -38,7 +38,7 @@ NAMES = ['a', 'b', 'c', 'pkg_x', 'mod_y', '_p']
 def required_cells(tier):
     return ['resolve:found-module', 'resolve:found-package', 'resolve:absent', 'resolve:broken-chain',
             'resolve:module-and-package', 'roundtrip', 'split', 'import', 'resolve:main-file',
-            'import:failing-leaves-syspath']
+            'import:failing-leaves-syspath', 'resolve:module-beside-plain-directory']
 
 
 def build(rng, root, uniq):
@@ -48,17 +48,21 @@ def build(rng, root, uniq):
         names = rng.sample(NAMES, rng.randint(1, 3))
         for n in names:
             n2 = n if depth > 0 else '%s_%s' % (n, uniq)
-            kind = rng.choice(['mod', 'pkg', 'nsdir', 'both', 'pkg_main', 'modraise'])
+            kind = rng.choice(['mod', 'pkg', 'nsdir', 'both', 'pkg_main', 'modraise', 'mod_nsdir'])
             if kind == 'modraise':
                 with open(os.path.join(d, n2 + '.py'), 'w') as f:
                     f.write('raise RuntimeError("XV_IMPORT_FAILS")\n')
-            if kind in ('mod', 'both'):
+            if kind in ('mod', 'both', 'mod_nsdir'):
                 with open(os.path.join(d, n2 + '.py'), 'w') as f:
                     f.write('NAME = %r\n' % n2)
-            if kind in ('pkg', 'both', 'pkg_main', 'nsdir'):
+            if kind in ('pkg', 'both', 'pkg_main', 'nsdir', 'mod_nsdir'):
                 sub = os.path.join(d, n2)
                 os.makedirs(sub, exist_ok=True)
-                if kind != 'nsdir':
+                if kind == 'mod_nsdir':
+                    # a resource directory next to the module of the same name: the module wins
+                    with open(os.path.join(sub, 'data.txt'), 'w') as f:
+                        f.write('x\n')
+                if kind not in ('nsdir', 'mod_nsdir'):
                     with open(os.path.join(sub, '__init__.py'), 'w') as f:
                         f.write('NAME = %r\n' % n2)
                 if kind == 'pkg_main':
@@ -141,6 +145,8 @@ def check_tree(ctx, idx, seed):
                 ctx.cell('resolve:module-and-package')
             if parts[-1] == '__main__' and got:
                 ctx.cell('resolve:main-file')
+            if cls == 'found-module' and os.path.isdir(os.path.join(root, *parts)):
+                ctx.cell('resolve:module-beside-plain-directory')
             if not got:
                 continue
             # ---- round trip
